@@ -130,8 +130,23 @@ class Report(object):
             self.items.append((sig, detail))
 
 
+def nested_section(t, top=True):
+    """is a section element (LoadParser.triggers) nested inside this section?"""
+    if t is None:
+        return False
+    for k in t[4]:
+        if k[0] == 'E':
+            if k[1] == L.OFFICENS and k[2] in L.TRIGGERS:
+                return True
+            if nested_section(k, False):
+                return True
+    return False
+
+
 def classify_diff(d, ctx):
     """signature of one tree difference inside a compared section.  `ctx`: facts about the SOURCE package only."""
+    if ctx.get('nested'):
+        return 'nested-section-element'
     if d['kind'] == 'attr':
         an = tuple(d['attr']); a = d['a']; b = d['b']
         if an == (L.DRAWNS, 'name') and a is not None and b is not None and (u' ' in a or u':' in a):
@@ -168,7 +183,8 @@ def contains(forest, t):
 def compare_doc(rep, src, out, folder, top):
     S = L.sections_of(src, folder); O = L.sections_of(out, folder)
     names = style_names(S)
-    ctx = {'collisions': set(n for n in names if names.count(n) > 1)}
+    ctx = {'collisions': set(n for n in names if names.count(n) > 1),
+           'nested': any(nested_section(x) for x in (S.body, S.styles, S.master, S.settings, S.meta, S.content_auto, S.styles_auto))}
     # parts the loader drops because __fixXmlPart made them ill-formed
     dropped = {}
     for part in L.PARTS:
@@ -324,6 +340,8 @@ def build_case(recipe):
         if recipe.get('mut') is None:
             return raw
         spec = M.spec_of(L.read_pkg(raw))
+    elif recipe['base'].startswith('witness:'):
+        spec = M.witness(recipe['base'][8:])
     else:
         spec = M.synthetic(rng, recipe['base'][4:])
     if recipe.get('mut'):
@@ -391,6 +409,8 @@ def gen_cases(chk):
     for f in files:
         if os.path.basename(f) in ('emb_spreadsheet.odp', 'spreadsheet-with-macro.ods'):
             cases.append({'base': 'file:' + f, 'mut': 'object-renumber', 'seed': rng.getrandbits(48)})
+    for w in ('w1', 'w2'):
+        cases.append({'base': 'witness:' + w, 'mut': None, 'seed': 0})
     nsyn = 6 if chk.tier == 'thorough' else 2
     for shape in SHAPES:
         for _ in range(nsyn):
